@@ -1,0 +1,70 @@
+//go:build verif
+
+// Contracts for the identity / kind binding of sealed tokens (property C13). Comment-only.
+//
+// The additional authenticated data (AAD) a token is sealed and opened under is
+//   prefix ++ 0x00 "anonymous"                          for a nil or unauthenticated caller,
+//   prefix ++ 0x01 ++ domain ++ 0x00 ++ principal        for an authenticated one,
+// where prefix is a per-kind constant. Under the AEAD idealisation (open succeeds only under the
+// AAD it was sealed with) acceptance is then a function of the presenting identity alone, and
+// the lemmas below show the AAD separates identities and kinds.
+
+package vgirpc
+
+//@ pure func isAnon(auth *AuthContext) bool = auth == nil || !auth.Authenticated
+
+//@ func tokenAad
+//@   property C13
+//@   ensures [anon] isAnon(auth) ==> len(result) == len(prefix) + 10 && result[len(prefix)] == 0 &&
+//@       result[len(prefix)+1] == 97 && result[len(prefix)+2] == 110 && result[len(prefix)+3] == 111 && result[len(prefix)+4] == 110 && result[len(prefix)+5] == 121 &&
+//@       result[len(prefix)+6] == 109 && result[len(prefix)+7] == 111 && result[len(prefix)+8] == 117 && result[len(prefix)+9] == 115
+//@   ensures [anonprefix] isAnon(auth) ==> (forall i int :: 0 <= i && i < len(prefix) ==> result[i] == old(prefix[i]))
+//@   ensures [authlen] !isAnon(auth) ==> len(result) == len(prefix) + 2 + len(auth.Domain) + len(auth.Principal) &&
+//@       result[len(prefix)] == 1 && result[len(prefix) + 1 + len(auth.Domain)] == 0
+//@   ensures [authprefix] !isAnon(auth) ==> (forall i int :: 0 <= i && i < len(prefix) ==> result[i] == old(prefix[i]))
+//@   ensures [authdomain] !isAnon(auth) ==> (forall i int :: 0 <= i && i < len(auth.Domain) ==> result[len(prefix) + 1 + i] == auth.Domain[i])
+//@   ensures [authprincipal] !isAnon(auth) ==> (forall i int :: 0 <= i && i < len(auth.Principal) ==> result[len(prefix) + 2 + len(auth.Domain) + i] == auth.Principal[i])
+
+// The per-kind prefixes: cursor and sticky-session tokens share the state prefix, call tokens
+// have their own; the two differ in their 9th byte ('s' / 'c'), so no AAD of one kind equals an
+// AAD of the other, whatever the identities.
+//
+//@ func stateTokenAad
+//@   property C13
+//@   at call tokenAad assert [prefix] len(arg0) == 17 && arg0[8] == 115 && arg1 == auth
+//@ func callTokenAad
+//@   property C13
+//@   at call tokenAad assert [prefix] len(arg0) == 16 && arg0[8] == 99 && arg1 == auth
+
+// The identity under which the call-state cache and the session registry key their entries
+// draws the anonymous / authenticated line exactly where the AAD does.
+//
+//@ func callStateIdentity
+//@   property C13
+//@   ensures [anon] isAnon(auth) ==> result == "\x00anonymous"
+//@   ensures [auth] !isAnon(auth) ==> result == auth.Domain + "\x00" + auth.Principal
+//@ func principalKeyFromAuth
+//@   property C13
+//@   ensures [anon] isAnon(auth) ==> result == "\x00anonymous"
+//@   ensures [auth] !isAnon(auth) ==> result == auth.Domain + "\x00" + auth.Principal
+
+// Separation lemmas over the layout (a, b: the byte strings of two AADs built on prefixes of the same length P).
+//
+//@ pure func authLayout(a string, P int, d string, p string) bool = len(a) == P + 2 + len(d) + len(p) && a[P] == 1 && a[P + 1 + len(d)] == 0 &&
+//@     (forall i int :: 0 <= i && i < len(d) ==> a[P + 1 + i] == d[i]) && (forall i int :: 0 <= i && i < len(p) ==> a[P + 2 + len(d) + i] == p[i])
+//@ pure func sameBytes(a string, b string) bool = len(a) == len(b) && (forall i int :: 0 <= i && i < len(a) ==> a[i] == b[i])
+//@ pure func noNul(s string) bool = forall i int :: 0 <= i && i < len(s) ==> s[i] != 0
+//
+// anonymous vs authenticated: the byte after the prefix is 0 resp. 1
+//@ lemma aadAnonVsAuth [C13]: forall a string, b string, P int :: P >= 0 && len(a) > P && len(b) > P && a[P] == 0 && b[P] == 1 ==> !sameBytes(a, b)
+//
+// two authenticated identities with NUL-free domains: equal AADs mean equal domain and principal
+// (in three steps; the `>= 0` conjuncts are true of every byte and only name the terms at which
+// the solvers instantiate the layout: the first NUL after the prefix ends the domain)
+//@ lemma aadDomainLen [C13]: forall a string, b string, P int, d1 string, p1 string, d2 string, p2 string ::
+//@   P >= 0 && authLayout(a, P, d1, p1) && authLayout(b, P, d2, p2) && noNul(d1) && noNul(d2) && sameBytes(a, b) &&
+//@   (len(d1) < len(d2) ==> d2[len(d1)] >= 0) && (len(d2) < len(d1) ==> d1[len(d2)] >= 0) ==> len(d1) == len(d2) && len(p1) == len(p2)
+//@ lemma aadDomainBytes [C13]: forall a string, b string, P int, d1 string, p1 string, d2 string, p2 string, i int ::
+//@   P >= 0 && authLayout(a, P, d1, p1) && authLayout(b, P, d2, p2) && sameBytes(a, b) && len(d1) == len(d2) && 0 <= i && i < len(d1) ==> d1[i] == d2[i]
+//@ lemma aadPrincipalBytes [C13]: forall a string, b string, P int, d1 string, p1 string, d2 string, p2 string, i int ::
+//@   P >= 0 && authLayout(a, P, d1, p1) && authLayout(b, P, d2, p2) && sameBytes(a, b) && len(d1) == len(d2) && 0 <= i && i < len(p1) && i < len(p2) ==> p1[i] == p2[i]
